@@ -1,5 +1,6 @@
 import Driver.Codec
 import PicoSVG.Model.Traverse
+import PicoSVG.Model.Cleanup
 open PicoSVG Drv
 
 namespace Drv
@@ -32,21 +33,21 @@ partial def parseNode : List String → Option (Node × List String)
               | some (nd, r') => kids k r' (nd :: acc)
               | none => none
           match kids mc r2 [] with
-          | some (cs, r3) => some (.elem (unesc tag) as cs, r3)
+          | some (cs, r3) => some (.elem 0 (unesc tag) as cs, r3)
           | none => none
       | _ => none
   | _ => none
 
 def decTree (s : String) : Option Node :=
   match parseNode (s.splitOn "\x1f") with
-  | some (n, _) => some n
+  | some (n, _) => some (Node.number 1 n).1
   | none => none
 
 partial def encNode : Node → List String
   | .comment => ["C"]
   | .pi => ["P"]
   | .text t => ["T", esc t]
-  | .elem tag as cs =>
+  | .elem _ tag as cs =>
     ["E", esc tag, toString as.length] ++ as.flatMap (fun (k, v) => [esc k, esc v]) ++
     [toString cs.length] ++ cs.flatMap encNode
 
@@ -75,6 +76,16 @@ def handleDoc (fields : List String) : Option String :=
           "\x1d".intercalate (r.1.map encViolation) ++ "\x1c" ++
           "\x1d".intercalate (r.2.map (fun a => " ".intercalate (a.map toString))))
         (Traverse.checkPico (allow == "1") (drop == "1") n))
+  | ["doc", "pass", name, noneGood, t] => (decTree t).bind (fun n =>
+      let ng := noneGood == "1"
+      match name with
+      | "remove_nonsvg_content" => some ("ok " ++ encTree (Cleanup.removeNonSvg ng n))
+      | "remove_processing_instructions" => some ("ok " ++ encTree (Cleanup.removePIs n))
+      | "remove_anonymous_symbols" => some ("ok " ++ encTree (Cleanup.removeAnonSymbols n))
+      | "remove_title_meta_desc" => some ("ok " ++ encTree (Cleanup.removeTitleMetaDesc n))
+      | "cleanup" => some ("ok " ++ encTree (Cleanup.cleanup ng n))
+      | "apply_style_attributes" => some (encExcept encTree (Cleanup.applyStyles n))
+      | _ => none)
   | _ => none
 
 end Drv
